@@ -328,7 +328,7 @@ def xpathKeep (v : Value) : Bool := v.isElement || v.isText
 
 /-- Children come as namespaces, then attributes, then normal nodes: after skipping the leading
     namespace nodes and then the attribute nodes, only normal nodes remain. -/
-def kidsOrdered (ks : List Tree) : Bool :=
+def orderedKids (ks : List Tree) : Bool :=
   ((ks.dropWhile (fun k => k.value.category == .namespace)).dropWhile
     (fun k => k.value.category == .attribute)).all (fun k => k.value.isNormal)
 
@@ -338,7 +338,7 @@ def attrNamesNodup (ks : List Tree) : Bool := decide ((attrPairs ks).map (·.1))
 /-- Every node below (and including) `t`: children well ordered, attribute names unique,
     attribute / namespace nodes are leaves. -/
 def Tree.valid : Tree → Bool
-  | .node v ks => kidsOrdered ks && attrNamesNodup ks && (v.isNormal || ks.isEmpty) && validList ks
+  | .node v ks => orderedKids ks && attrNamesNodup ks && (v.isNormal || ks.isEmpty) && validList ks
 where
   validList : List Tree → Bool
     | [] => true
@@ -348,14 +348,14 @@ where
     node failing `keep`) is a leaf. `validRootFor` exempts the root from the leaf condition. -/
 def Tree.validFor (keep : Value → Bool) : Tree → Bool
   | .node v ks =>
-    kidsOrdered ks && attrNamesNodup ks && ((v.isNormal && keep v) || ks.isEmpty) && validForList keep ks
+    orderedKids ks && attrNamesNodup ks && ((v.isNormal && keep v) || ks.isEmpty) && validForList keep ks
 where
   validForList (keep : Value → Bool) : List Tree → Bool
     | [] => true
     | k :: ks => Tree.validFor keep k && validForList keep ks
 
 def Tree.validRootFor (keep : Value → Bool) (t : Tree) : Bool :=
-  kidsOrdered t.kids && attrNamesNodup t.kids && t.kids.all (Tree.validFor keep)
+  orderedKids t.kids && attrNamesNodup t.kids && t.kids.all (Tree.validFor keep)
 
 /-- Text, comment and PI nodes are leaves, everywhere below (and including) `t`. -/
 def Tree.contentLeaves : Tree → Bool
